@@ -200,6 +200,31 @@ def run(ctx):
         ctx.ob('C18-R3', fi, f'writer of the singleton: {norm(st)}', ok,
                'Config validator / reset' if ok else 'the singleton is written from an unexpected place',
                line=st.lineno, nontrivial=False)
+    # the singleton may be cleared only by reset() itself, or by a failed load that clears
+    # *its own* publication (guarded by an identity test against the instance being built)
+    all_validators = []
+    for sdef in cfg.node.body:
+        if isinstance(sdef, ast.FunctionDef) and any('validator' in norm(d_) for d_ in sdef.decorator_list):
+            all_validators.append(cfg.methods[sdef.name])
+    ctx.stats['validators_all_modes'] = [f'{f.name}:{[norm(d_) for d_ in f.node.decorator_list][0][:40]}' for f in all_validators]
+    for fi in m.functions.values():
+        if fi.qualname == 'Config.reset':
+            continue
+        for c in calls_in(fi.node):
+            cn = call_name(c)
+            if cn in ('cls.reset', 'Config.reset', 'self.reset', 'reset') and fi.cls is cfg:
+                gs = [norm(t) for t, pol, _ in guards_of(c)]
+                own = any(('_config is self' in g_) or ('_config is result' in g_) or ('is _config' in g_) for g_ in gs)
+                ctx.ob('C18-R3', fi, f'{cn}() called inside {fi.qualname}', own,
+                       'clears only a publication made by this very load' if own else
+                       ('the singleton is cleared on a path that is also taken when a load is *refused* because a '
+                        'configuration is already active (the refusal is raised inside validation): a refused second load '
+                        'wipes the active configuration'), line=c.lineno)
+        for st in _global_stores(fi):
+            v = getattr(st, 'value', None)
+            if isinstance(v, ast.Constant) and v.value is None and fi.qualname != 'Config.reset':
+                ctx.ob('C18-R3', fi, f'`{norm(st)}` outside reset()', False,
+                       'the active configuration is cleared outside reset()', line=st.lineno)
     # proxy setattr must delegate to setattr on the frozen instance (not object.__setattr__)
     ps = m.func('ConfigProxy.__setattr__')
     cs = [call_name(c) for c in calls_in(ps.node)]
